@@ -13,7 +13,7 @@ Definition status_of (ty : Z) (s : isock) : bytes :=
 Definition ref_inet_row (lk : imap) (filt : option Z) (fam ty : Z) (s : isock) : option row :=
   let own := owner_of lk (s_inode s) in
   if filt_skip filt (fst own) then None
-  else Some {| r_fd := snd own; r_family := fam; r_type := ty;
+  else Some {| r_fd := snd own; r_family := tmap_obj fam; r_type := tmap_obj ty;
                r_laddr := spec_addr (s_lip s) (s_lport s); r_raddr := spec_addr (s_rip s) (s_rport s);
                r_status := status_of ty s; r_pid := fst own |}.
 Definition olist {A} (o : option A) : list A := match o with Some a => [a] | None => [] end.
@@ -112,15 +112,15 @@ Proof.
   - cbn [obind fst snd]. destruct (filt_skip filt (Some p)).
     + now destruct (hidden6 o (is_v6 (s_lip s)) s).
     + rewrite Hs. cbn [obind].
-      exact (decode_two le o s (fun la ra => {| r_fd := f; r_family := if is_v6 (s_lip s) then AF_INET6 else AF_INET;
-                                               r_type := ty; r_laddr := la; r_raddr := ra;
+      exact (decode_two le o s (fun la ra => {| r_fd := f; r_family := tmap_obj (if is_v6 (s_lip s) then AF_INET6 else AF_INET);
+                                               r_type := tmap_obj ty; r_laddr := la; r_raddr := ra;
                                                r_status := status_of ty s; r_pid := Some p |})
                         Hlip Hrip Hr6 Hlp Hrp Ho).
   - cbn [obind fst snd]. destruct (filt_skip filt None).
     + now destruct (hidden6 o (is_v6 (s_lip s)) s).
     + rewrite Hs. cbn [obind].
-      exact (decode_two le o s (fun la ra => {| r_fd := -1; r_family := if is_v6 (s_lip s) then AF_INET6 else AF_INET;
-                                               r_type := ty; r_laddr := la; r_raddr := ra;
+      exact (decode_two le o s (fun la ra => {| r_fd := -1; r_family := tmap_obj (if is_v6 (s_lip s) then AF_INET6 else AF_INET);
+                                               r_type := tmap_obj ty; r_laddr := la; r_raddr := ra;
                                                r_status := status_of ty s; r_pid := None |})
                         Hlip Hrip Hr6 Hlp Hrp Ho).
 Qed.
@@ -207,7 +207,7 @@ Definition unix_pairs (lk : imap) (ino : bytes) : list (option Z * Z) :=
   | None => [(None, -1)]
   end.
 Definition ref_unix_rows (fam : Z) (lk : imap) (filt : option Z) (u : usock) : list row :=
-  map (fun pf => {| r_fd := snd pf; r_family := fam; r_type := utype_num (u_type u);
+  map (fun pf => {| r_fd := snd pf; r_family := tmap_obj fam; r_type := to_enum gen_socket_kinds (utype_num (u_type u));
                     r_laddr := APath (path_of u); r_raddr := APath []; r_status := CONN_NONE; r_pid := fst pf |})
       (filter (fun pf => negb (filt_skip filt (fst pf))) (unix_pairs lk (u_inode u))).
 
@@ -230,8 +230,12 @@ Proof.
   unfold six. cbn [forallb]. rewrite H1, H2, H3, H4, H5, hexw_tok by discriminate. reflexivity.
 Qed.
 
-Lemma py_int_utype t : py_int (hexw 4 (utype_num t)) = Val (utype_num t).
-Proof. destruct t; reflexivity. Qed.
+Lemma py_int_utype t : wf_utype t = true -> py_int (hexw 4 (utype_num t)) = Val (utype_num t).
+Proof.
+  destruct t as [| | |n]; try reflexivity. cbn [wf_utype utype_num]. intros H.
+  assert (Hn : In n [0; 1; 2; 3; 4; 5; 6; 7; 8; 9]) by (cbn [In]; lia).
+  cbn [In] in Hn. repeat (destruct Hn as [<-|Hn]; [reflexivity|]). contradiction.
+Qed.
 
 Lemma after_space_tok t r : contains 32 t = false -> after_space (t ++ 32 :: r) = r.
 Proof.
@@ -252,6 +256,8 @@ Lemma unix_line_ok v fam lk filt u :
   unix_line v fam lk filt (k_uline u) = Val (ref_unix_rows fam lk filt u).
 Proof.
   intros Hwf Hlead. pose proof (six_ok u Hwf) as Hsix.
+  assert (Hty : wf_utype (u_type u) = true).
+  { unfold wf_usock in Hwf. now apply andb_true_iff in Hwf as [_ Hwf]. }
   apply wf_usock_parts in Hwf as (H1 & H2 & H3 & H4 & H5 & Hino & Hnl).
   pose proof Hino as Hino'. apply is_dec_tok in Hino' as [Hne Hnw].
   assert (Ek : k_uline u = k_seq (u_pad u) 0 (six u) (u_inode u ++ uline_tail u)) by reflexivity.
@@ -304,7 +310,7 @@ Proof.
               | Some l => map (fun pf => (Some (fst pf), snd pf)) l
               | None => [(None, -1)]
               end) as [|x sel'] eqn:Esel; [reflexivity|].
-  rewrite py_int_utype. cbn [obind].
+  rewrite py_int_utype by exact Hty. cbn [obind].
   f_equal. apply map_ext. intros pf. f_equal. f_equal. exact Hpath.
 Qed.
 
